@@ -21,24 +21,28 @@ SynFns == {"named-child-index", "source-text", "start-row", "start-column", "end
 
 G0 == AddGraphNode(AddGraphNode(EmptyGraph))
 
-VARIABLES fn, which, idx, phase, result
-vars == <<fn, which, idx, phase, result>>
+\* the syntax functions are also tabulated over every node of further trees (Pool.srcs: trees with comments, errors and missing
+\* nodes, non-ASCII text, deep nesting, an empty file); `ti` selects the tree of a row
+VARIABLES fn, which, idx, ti, phase, result
+vars == <<fn, which, idx, ti, phase, result>>
+TrOf(t) == Trees[t].nodes
 args == IF which = "syn" THEN <<VSyn(idx[1])>> ELSE [i \in 1..Len(idx) |-> FromJ(PoolOf(which)[idx[i]])]
 
 Init ==
   /\ phase = "call"
   /\ result = [ok |-> FALSE, kind |-> "pending"]
   /\ \/ /\ fn \in StdlibNames \cup {"no-such-fn"}
+        /\ ti = Pool.src
         /\ \/ which = "full" /\ idx \in {<<>>} \cup IdxTuples("full", 1) \cup IdxTuples("full", 2)
            \/ Pool.maxlen >= 3 /\ which = "core" /\ idx \in IdxTuples("core", 3)
            \/ Pool.maxlen >= 4 /\ which = "core4" /\ idx \in IdxTuples("core4", 4)
-     \/ fn \in SynFns /\ which = "syn" /\ idx \in {<<n>> : n \in 1..Len(Tr)}
+     \/ fn \in SynFns /\ which = "syn" /\ ti \in {Pool.srcs[k] : k \in 1..Len(Pool.srcs)} /\ idx \in {<<n>> : n \in 1..Len(TrOf(ti))}
 
 CallFn ==
   /\ phase = "call"
-  /\ result' = Call(fn, args, G0, Tr)
+  /\ result' = Call(fn, args, G0, TrOf(ti))
   /\ phase' = "done"
-  /\ UNCHANGED <<fn, which, idx>>
+  /\ UNCHANGED <<fn, which, idx, ti>>
 
 Spec == Init /\ [][CallFn]_vars
 
@@ -69,7 +73,7 @@ PlusContract ==
 UnknownFunction == (Done /\ fn = "no-such-fn") => ~result.ok /\ result.kind = "UndefinedFunction"
 
 Replay ==
-  Done => PrintT(<<"REPLAY", ToJson([fn |-> fn, args |-> args,
+  Done => PrintT(<<"REPLAY", ToJson([fn |-> fn, args |-> args, src |-> ti,
                                      ok |-> result.ok,
                                      v |-> IF result.ok THEN result.v ELSE VNull,
                                      kind |-> IF result.ok THEN "" ELSE result.kind,
